@@ -123,6 +123,8 @@ func classify(err error) int {
 		return 19
 	case strings.Contains(s, "insufficient funds") || strings.Contains(s, "is smaller than"):
 		return 20
+	case strings.Contains(s, "does not have expected prefix"):
+		return 23
 	case strings.Contains(s, "not allowed to force unlock"):
 		return 21
 	case strings.Contains(s, "superfluid delegation exists for lock"):
@@ -231,10 +233,10 @@ func (d *drv) poolInputs(ctx sdk.Context, i int) (string, string) {
 	return sdk.NewCoins(a0, a1).AmountOf(d.bond).String(), liq.BigInt().String()
 }
 
-func (d *drv) observe(code int, newID uint64) []string {
+func (d *drv) observe(code int, newID string) []string {
 	app := d.h.App
 	ctx := d.ctx
-	row := []string{fmt.Sprint(code), fmt.Sprint(newID), d.rel(ctx.BlockTime())}
+	row := []string{fmt.Sprint(code), newID, d.rel(ctx.BlockTime())}
 	row = append(row, app.BankKeeper.GetSupply(ctx, d.bond).Amount.String(),
 		app.BankKeeper.GetSupplyOffset(ctx, d.bond).String(),
 		app.BankKeeper.GetSupplyWithOffset(ctx, d.bond).Amount.String())
@@ -473,11 +475,12 @@ func (d *drv) accIndex(acc sftypes.SuperfluidIntermediaryAccount) int {
 	return d.denomIdx(acc.Denom)*(len(d.vals)) + d.valIdx(acc.ValAddr)
 }
 
-func (d *drv) step(o op) (int, uint64) {
+func (d *drv) step(o op) (int, string) {
 	app := d.h.App
 	sfms := sfkeeper.NewMsgServerImpl(app.SuperfluidKeeper)
 	lkms := lockupkeeper.NewMsgServerImpl(app.LockupKeeper)
 	var newID uint64
+	newVal := ""
 	var err error
 	switch o.K {
 	case "lock":
@@ -604,6 +607,21 @@ func (d *drv) step(o op) (int, uint64) {
 			_, e := lkms.ForceUnlock(ctx, &lockuptypes.MsgForceUnlock{Owner: d.owner(o.O).String(), ID: o.ID})
 			return e
 		})
+	case "convert":
+		// MsgUnbondConvertAndStake: the lock (superfluid bonded, superfluid unbonding or plain) leaves lockup, exits the pool,
+		// the proceeds are swapped to OSMO and staked with validator o.V by the owner; the staked amount is reported
+		err = apph.Atomic(d.ctx, func(ctx sdk.Context) error {
+			den := d.denoms[0]
+			if l, e := app.LockupKeeper.GetLockByID(ctx, o.ID); e == nil && len(l.Coins) == 1 {
+				den = l.Coins[0].Denom
+			}
+			r, e := sfms.UnbondConvertAndStake(ctx, &sftypes.MsgUnbondConvertAndStake{LockId: o.ID, Sender: d.owner(o.O).String(), ValAddr: d.valAddrStr(o.V),
+				MinAmtToStake: osmomath.ZeroInt(), SharesToConvert: sdk.NewCoin(den, osmomath.ZeroInt())})
+			if e == nil {
+				newVal = r.TotalAmtStaked.String()
+			}
+			return e
+		})
 	case "slash":
 		// x/staking Slash of validator o.V by the fraction o.Amt (a Dec raw) at the current height; the superfluid hook
 		// BeforeValidatorSlashed slashes the locks behind the validator's intermediary accounts (slash.go)
@@ -684,7 +702,10 @@ func (d *drv) step(o op) (int, uint64) {
 	if code >= 97 {
 		d.msgs = append(d.msgs, fmt.Sprintf("%s: %v", o.K, err))
 	}
-	return code, newID
+	if newVal == "" {
+		newVal = fmt.Sprint(newID)
+	}
+	return code, newVal
 }
 
 func run(t *testing.T, c cs) (o obs) {
@@ -696,7 +717,7 @@ func run(t *testing.T, c cs) (o obs) {
 	d := &drv{h: apph.New(t), c: c}
 	d.setup(t)
 	o.Unb = fmt.Sprint(int64(d.unb))
-	o.Flat = append(o.Flat, d.observe(0, 0))
+	o.Flat = append(o.Flat, d.observe(0, "0"))
 	inv := sfkeeper.TotalSuperfluidDelegationInvariant(*d.h.App.SuperfluidKeeper)
 	for _, x := range c.Ops {
 		code, id := d.step(x)
